@@ -23,9 +23,10 @@ func runC12(cases []string, out *bufio.Writer, args []string) {
 	for _, c := range c01Custom {
 		log.RegisterLevel(c.code, c.name)
 	}
-	h := log.GetLogger("lg")
+	hLg, hRoot := log.GetLogger("lg"), log.GetLogger("root")
+	h := hLg
 	same := "1"
-	if log.GetLogger("lg") != h {
+	if log.GetLogger("lg") != hLg || log.GetLogger("root") != hRoot {
 		same = "0"
 	}
 	if len(args) > 0 && args[0] == "ghost" {
@@ -51,21 +52,31 @@ func runC12(cases []string, out *bufio.Writer, args []string) {
 		f := strings.Fields(line)
 		kind, pol := f[0], f[1]
 		refs := strings.Split(f[2], ",")
-		cfg := map[string]string{"logger.lg.tags": "_c12_*", "logger.lg.level": "info"}
+		// kinds ending in "root": the logger is the one configured under the reserved name "root" and the handle is the one of that name
+		lg := "lg"
+		h = hLg
+		if strings.HasSuffix(kind, "root") {
+			lg, h, kind = "root", hRoot, strings.TrimSuffix(kind, "root")
+		}
+		cfg := map[string]string{"logger." + lg + ".level": "info"}
+		cfg["logger.lg.tags"] = "_c12_*"
+		if lg == "root" { // the handle "lg" exists in this process, so its name must stay configured
+			cfg["logger.lg.type"], cfg["logger.lg.appenderRef.ref"], cfg["appender.other.type"] = "Logger", "other", "Rec"
+		}
 		if kind == "async" || kind == "async100" {
-			cfg["logger.lg.type"] = "AsyncLogger"
-			cfg["logger.lg.bufferFullPolicy"] = pol
-			cfg["logger.lg.bufferSize"] = "100000"
+			cfg["logger."+lg+".type"] = "AsyncLogger"
+			cfg["logger."+lg+".bufferFullPolicy"] = pol
+			cfg["logger."+lg+".bufferSize"] = "100000"
 			if kind == "async100" {
-				cfg["logger.lg.bufferSize"] = "100"
+				cfg["logger."+lg+".bufferSize"] = "100"
 			}
 		} else {
-			cfg["logger.lg.type"] = "Logger"
+			cfg["logger."+lg+".type"] = "Logger"
 		}
 		for i, r := range refs {
 			cfg[fmt.Sprintf("appender.a%d.type", i)] = "Rec"
-			cfg[fmt.Sprintf("logger.lg.appenderRef[%d].ref", i)] = fmt.Sprintf("a%d", i)
-			cfg[fmt.Sprintf("logger.lg.appenderRef[%d].level", i)] = unhex(r)
+			cfg[fmt.Sprintf("logger.%s.appenderRef[%d].ref", lg, i)] = fmt.Sprintf("a%d", i)
+			cfg[fmt.Sprintf("logger.%s.appenderRef[%d].level", lg, i)] = unhex(r)
 		}
 		recReset()
 		slow.Store(false)
